@@ -432,6 +432,9 @@ fn arb_piece() -> impl Strategy<Value = Vec<Seg>> {
         1 => prop::sample::select(vec!["*", "?", "[", "]", "a", "[ab]", "a*", "."]).prop_map(|s| vec![Seg::DQ(s.to_string())]),
         3 => prop::sample::select(VAR_VALUES.to_vec()).prop_map(|s| vec![Seg::Var(s.to_string())]),
         1 => prop::sample::select(vec!["*", "?", "[a]", "a b", "\\*", "a"]).prop_map(|s| vec![Seg::QVar(s.to_string())]),
+        // empty quotes: they contribute nothing to the field, also not something to escape for a
+        // backslash that ends the expansion before them
+        1 => prop::sample::select(vec![Seg::SQ(String::new()), Seg::DQ(String::new()), Seg::QVar(String::new())]).prop_map(|s| vec![s]),
     ]
 }
 
